@@ -94,6 +94,7 @@ def extra(tier, seed, st):
                     fails.append(("changed:" + key, "`gotree %s` gives a different result when %s (documented defaults) is passed explicitly than when omitted" % (" ".join(argv), " ".join(given)),
                                   {"argv_omitted": argv, "argv_given": argv + given,
                                    "out_omitted": b"\n".join(omitted[1]).decode("utf-8", "replace")[:800], "out_given": b"\n".join(out[1]).decode("utf-8", "replace")[:800]}))
+        info["samples"] = [{"differential": k, **v} for k, v in list(info["differentials"].items())[:5]]
     finally:
         shutil.rmtree(d, ignore_errors=True)
     return fails, info
